@@ -46,6 +46,8 @@ def gen_expr(rng, depth, d, p=0.45):
         lambda: 'CAST(%s AS int)' % e(), lambda: '- %s' % e(), lambda: '%s IS NULL' % e(),
         lambda: '(%s)' % e(),
         lambda: '(SELECT %s FROM int.t%d WHERE %s)' % (e(), rng.randrange(3), e()),
+        lambda: '%sEXISTS (SELECT %s FROM int.t%d WHERE %s)' % (rng.choice(['', 'NOT ']), e(), rng.randrange(3), e()),
+        lambda: '%s %sIN (SELECT %s FROM int.t%d WHERE %s)' % (e(), rng.choice(['', 'NOT ']), e(), rng.randrange(3), e()),
     ]
     if d != 'sqlite':
         forms += [lambda: 'CASE %s WHEN %s THEN %s ELSE %s END' % (e(), e(), e(), e()),
@@ -163,6 +165,9 @@ FIXED = [
     'SELECT ? UNION SELECT ?',
     'SELECT a FROM int.t WHERE b = 1',
     'SELECT ? AS x, (?) FROM int.t',
+    'SELECT a FROM int.t WHERE EXISTS (SELECT b FROM int.u WHERE c = ?) AND d = ?',
+    'SELECT ? FROM int.t WHERE NOT EXISTS (SELECT ? FROM int.u WHERE c = ?)',
+    'SELECT a FROM int.t WHERE b IN (SELECT ? FROM int.u WHERE c = ?) AND d = ?',
 ] + ['INSERT INTO int.t (a, b) VALUES (%s, %s), (%s, %s)' % tuple('?' if (m >> i) & 1 else str(i + 1) for i in range(4))
      for m in range(16)]
 
@@ -381,6 +386,21 @@ def probe(schema, dialect, text, rng, history=True, values=None):
         r = outcome(lambda: pl.execute_steps([VAL0 + i for i in range(k)]))
         if r[0] != 'PlanningException':
             fails.append(dict(kind='mismatch', detail='%d values for %d parameters: %s' % (k, len(found), r[0]), causes=[]))
+    if history and len(found) > 0:
+        # an error in the middle of the history: a rejected execute (wrong count) must leave the statement prepared
+        pl = new_planner()
+        pl.prepare_steps(copy.deepcopy(tree))
+        w = outcome(lambda: pl.execute_steps([VAL0 + i for i in range(len(found) + 1)]))
+        i2 = outcome(lambda: len(pl.get_statement_info()['parameters']))
+        r_ok = outcome(lambda: plan_steps(pl.execute_steps(list(vals))))
+        fresh = new_planner()
+        fresh.prepare_steps(copy.deepcopy(tree))
+        r_ref = outcome(lambda: plan_steps(fresh.execute_steps(list(vals))))
+        if w[0] == 'PlanningException' and (i2 != ('ok', len(found)) or r_ok[0] != r_ref[0]
+                                            or (r_ok[0] == 'ok' and not (r_ok[1] == r_ref[1]))):
+            fails.append(dict(kind='after-rejected-execute', causes=[],
+                              detail='after an execute with a wrong number of values was rejected: info %s, execute with the '
+                                     'right values %s (fresh statement: %s)' % (i2, r_ok[0], r_ref[0])))
     if history:
         pl = new_planner()
         pl.prepare_steps(copy.deepcopy(tree))
